@@ -95,6 +95,7 @@ struct CmpCtx {
   // change while a cell is moved up, and the moving cell is always just before the other one when it is compared
   bool birth(unsigned a, unsigned b) {
     ++birth_calls;
+    if (vh::G().verbose) fprintf(stderr, "    birthComp(col %u [pivot pos %d], col %u [pivot pos %d])\n", a, pos0(pivot_of(a)), b, pos0(pivot_of(b)));
     return pos0(pivot_of(a)) < pos0(pivot_of(b));
   }
   // deaths of the bars born at the two cells, in the order that is current for this very transposition
@@ -116,6 +117,7 @@ struct CmpCtx {
     long d1 = -2, d2 = -2;
     for (auto& x : bars) { if (x.birth == p1) d1 = x.death; if (x.birth == p2) d2 = x.death; }
     if (d1 == -2 || d2 == -2) { ++unexpected; return false; }
+    if (vh::G().verbose) fprintf(stderr, "    deathComp(col %u [pivot pos %d], col %u [pivot pos %d]) deaths %ld %ld\n", a, p1, b, p2, d1, d2);
     if (d1 < 0) return false;       // infinite death is never strictly smaller
     if (d2 < 0) return true;
     return d1 < d2;
@@ -661,6 +663,23 @@ struct Driver {
       // domain of the "+gap" configurations
       if (!gapped_ids) for (auto& in : insts) if (in->pos_of_id((unsigned)w.size()) >= 0) { c.count("skip.insert.natural_id_taken"); --w.next_key; return true; }
     }
+    if constexpr (!F::ru) {
+      // a chain matrix reduces an inserted boundary by decreasing identifier: once vine swaps have made the identifiers
+      // non-monotone along the filtration this is a different order.  Recorded in the signature; without a stored
+      // barcode (no position map in the matrix) such insertions are made only once in a while, so that the known
+      // consequence does not end most histories early.
+      bool unsorted = false;
+      for (auto& in : insts) {
+        bool u = false;
+        for (size_t i = 0; i + 1 < in->ids.size(); ++i) if (in->ids[i] > in->ids[i + 1]) u = true;
+        in->note = u ? "idorder=unsorted" : "idorder=sorted";
+        unsorted = unsorted || u;
+      }
+      if constexpr (!F::bar) {
+        if (unsorted && !r.chance(1, 8)) { c.count("skip.insert.nobar_chain_ids_unsorted"); --w.next_key; return true; }
+      }
+      c.count(unsorted ? "op.insert.idorder_unsorted" : "op.insert.idorder_sorted");
+    }
     lastop = "insert"; lastcls = "dim" + std::to_string(cell.dim);
     c.log("INSERT key=" + std::to_string(cell.key) + " dim=" + std::to_string(cell.dim));
     w.push(cell);
@@ -683,8 +702,15 @@ struct Driver {
       for (auto& in : insts) {
         unsigned maxid = 0; for (unsigned id : in->ids) maxid = std::max(maxid, id);
         in->note = in->ids[p] == maxid ? "last_has_max_id" : "last_not_max_id";
-        c.count("op.remove_last." + in->note);
       }
+      if constexpr (!F::ru && !F::bar) {
+        // without a stored barcode a chain matrix has no position map: remove_last() can only find the last cell of the
+        // filtration when it carries the largest identifier.  Otherwise it is called only once in a while (see above).
+        bool bad = false;
+        for (auto& in : insts) if (in->note == "last_not_max_id") bad = true;
+        if (bad && !r.chance(1, 6)) { c.count("skip.remove_last.nobar_chain_last_not_max_id"); return true; }
+      }
+      for (auto& in : insts) c.count("op.remove_last." + in->note);
       c.log("REMOVE_LAST " + insts[0]->note);
       if (lastswap_step == n_steps - 2) c.count("op.remove_last.right_after_swap");
       World w_before = w;
